@@ -30,6 +30,9 @@ CLAIMED = {
  'C10': dict(
     text='Bounded symbolic model checking of the compiled parser: Parser::parse runs on token streams whose token kinds are symbolic (37-kind expression alphabet), next to an independent table-driven reference parser transcribed from the documented precedence table; on every feasible path either both reject the sequence or the two syntax trees are structurally identical. Exhaustive over all sequences up to the stated length, plus longer templates (three- and four-operand expressions, conditionals, unary/postfix combinations, parentheses, calls) whose operator positions are symbolic over all 23 operators. All-sequences-within-a-bound is the right level because a precedence or associativity slip shows only for a particular pair of operators in a particular arrangement.',
     design_ref='DESIGN.md §4 C10', technique='symbolic execution of LLVM IR + SMT (z3 QF_BV), replay-mode path exploration, reference-parser differential'),
+ 'C14': dict(
+    text='Partial claim (integer branch, bounded magnitude), bounded symbolic model checking of the compiled code: Number::pretty_print_with (integer branch: is_integer test, conversion to i64, num_format digit extraction and grouping) runs on a symbolic integer-valued double with concrete separator / threshold settings; on every feasible path the text consists of an optional minus and digits with separators only between groups of three, reading the digits back gives exactly |x| (all digits are shown), the sign is shown, and grouping is used exactly from the configured threshold on. The floating-point branch is outside reach.',
+    design_ref='DESIGN.md §0a / §4 C14', technique='symbolic execution of LLVM IR + SMT (z3 QF_FPBV/QF_BV), replay-mode path exploration'),
  'C15': dict(
     text='Partial claim (string literals only), bounded symbolic model checking of the compiled code: for every string over the 14 characters that the escaping and unescaping code distinguishes (quote, backslash, braces, the escape letters, control characters, ordinary characters) up to the stated length, the echoed literal — quote + escape_numbat_string(s) + quote — is tokenized by the real tokenizer as one plain string token and parsed by the real parser back to exactly s, and echoing the re-read string reproduces the same text. The decorator echo defect named in the property text is a single concrete input outside this kernel and is NOT found.',
     design_ref='DESIGN.md §0a / §4 C15', technique='symbolic execution of LLVM IR + SMT (z3 QF_BV), replay-mode path exploration'),
@@ -55,7 +58,6 @@ NOT_APPLICABLE = {
  'C06': 'ranges over histories of source texts; no symbolic value reaches the rollback mechanism and symbolic source text is out of reach (hash-map keyword lookup, float parsing)',
  'C07': 'ranges over sequences of texts and split points; nothing value-dependent for a solver to decide',
  'C13': 'finite alias x prefix table: exhaustive enumeration is the tool; a solver would need symbolic identifiers through IndexMap hashing or a hand model of PrefixParser::parse instead of the code',
- 'C14': 'number formatting: the float branch (pretty_dtoa / ryu, table-driven 128-bit arithmetic on symbolic bits) is not executable symbolically; the integer branch needs digit extraction by division on symbolic 64-bit values, not built',
  'C16': 'ranges over function bodies (program structure); the inference / printing mechanism does not branch on any value that can be made symbolic',
  'C17': 'finite set of module orders with no symbolic value; exhaustive enumeration is the tool',
  'C19': 'date-time arithmetic lives in jiff (calendar and time-zone tables) behind VM opcodes that need a DateTime on the stack; no kernel was built, so nothing is claimed',
